@@ -51,6 +51,8 @@ def run(case):
     SCRIPT[("N", 1)] = plan if who == "normal" else ("own",)
     if who == "hft":
         SCRIPT[("H", 1)] = plan
+    if who == "normalP":
+        SCRIPT[("P", 1)] = plan      # the foreign id this agent (id 2) uses is (2 + 1) % 3 = 0: the id that is falsy
     r = SequentialRunner(settings=cfg, prng=random.Random(case.get("seed", 1)), logger=Rec())
     for c in (Scripted, ScriptedHFT):
         r.class_register(c)
@@ -61,11 +63,11 @@ def run(case):
         raised = False
     except ValueError:
         raised = True
-    ids = {"normal": 0, "hft": 1}
+    ids = {"normal": 0, "hft": 1, "normalP": 2}
     bad = [l for l in ACCEPTED if l.agent_id == (ids[who] + 1) % 3 and l.price == 101.0]
     books = [o for m in r.simulator.markets for o in m.buy_order_book.priority_queue + m.sell_order_book.priority_queue if o.price == 101.0]
     if foreign and not raised:
-        return f"{who} agent's batch {list(plan)} contains an order under another agent's id and was accepted ({len(bad)} such order(s) logged, {len(books)} resting)"
+        return f"{who} agent's batch {list(plan)} contains an order under another agent's id ({(ids[who] + 1) % 3}) and was accepted ({len(bad)} such order(s) logged, {len(books)} resting)"
     if bad or books:
         return f"{who} agent's batch {list(plan)}: an order under another agent's id reached the book"
     if not foreign and raised:
@@ -74,7 +76,7 @@ def run(case):
 
 
 def cases():
-    for who in ("normal", "hft"):
+    for who in ("normal", "hft", "normalP"):
         for n in (1, 2, 3):
             for plan in itertools.product(("own", "foreign"), repeat=n):
                 yield {"who": who, "plan": list(plan)}
